@@ -14,6 +14,7 @@ pub fn quiet_panics() {
 }
 
 pub fn load(dsl: &str) -> Result<File, String> {
+    crate::common::note_input("load", &serde_json::json!({"dsl": dsl}));
     match catch_unwind(AssertUnwindSafe(|| File::from_str(tree_sitter_python::LANGUAGE.into(), dsl))) {
         Ok(Ok(f)) => Ok(f),
         Ok(Err(e)) => Err(format!("{:?}", e)),
